@@ -13,6 +13,7 @@ import (
 
 	"github.com/openconfig/goyang/pkg/yang"
 	"verif/mc/core"
+	"verif/mc/gen/scale"
 )
 
 // K is the keyword alphabet: the RFC 7950 keywords, the builder's meta names, an unknown word and a
@@ -320,7 +321,7 @@ func shards(tier string) []string {
 	for i := 0; i < nShards; i++ {
 		out = append(out, fmt.Sprintf("ctx/%d", i))
 	}
-	return append(out, "toplevel", "long")
+	return append(out, "toplevel", "long/0", "long/1", "long/2", "long/3", "long/4", "long/5", "long/6", "long/7")
 }
 
 // longBody: n substatements of a container - leaves in the main, a container, a list and leaf-lists
@@ -378,19 +379,34 @@ func run(c *core.Ctx) {
 			c.Outcome("rejected")
 		}
 	}
-	if c.Shard == "long" {
+	if strings.HasPrefix(c.Shard, "long/") {
+		var lk int
+		fmt.Sscanf(c.Shard, "long/%d", &lk)
 		sizes := []int{}
 		for n := 1; n <= 300; n++ {
 			sizes = append(sizes, n)
 		}
 		sizes = append(sizes, 511, 512, 513, 1023, 1024, 1025, 4095, 4096, 4097)
-		for _, n := range sizes {
+		for si, n := range sizes {
 			if c.Expired() {
 				return
+			}
+			if si%8 != lk {
+				continue
 			}
 			one(Input{Text: `module m { namespace "urn:m"; prefix m; container top {` + longBody(n) + ` } }`})
 			one(Input{Text: `module m { namespace "urn:m"; prefix m;` + longBody(n) + ` }`})
 			one(Input{Text: `module m { namespace "urn:m"; prefix m; grouping g {` + longBody(n) + ` } rpc r { input {` + longBody(n) + ` } } }`})
+			if n <= 300 {
+				one(Input{Text: scale.Counts(n).Text})
+				one(Input{Text: scale.ManyLeaves(n).Text})
+			}
+			la, _ := scale.LongArgs(n)
+			one(Input{Text: la.Text})
+			if n <= 300 {
+				la, _ = scale.LongArgs(n * 40)
+				one(Input{Text: la.Text})
+			}
 		}
 		return
 	}
